@@ -356,6 +356,12 @@ def real_runs(ctx, n_runs, budget_s):
     done = 0
     while done < n_runs and time.time() - t0 < budget_s:
         case = gen_c06_case(rng)
+        if case["paired"] and rng.random() < 0.4:
+            # paired-end data in ONE interleaved input file (the reader process then chunks a single file; the workers still see pairs)
+            if "--interleaved" not in case["argv"]:
+                case["argv"] = ["--interleaved"] + list(case["argv"])
+            case["interleaved_in"] = True
+            ctx.count("real-processes:interleaved-input")
         inputs, in_args = pipe.inputs_of(case)
         names = sorted(inputs)
         bufsize, nchunks = choose_buffer(rng, inputs, names, rng.randint(2, 6))
